@@ -65,6 +65,23 @@ func keywordCases(emit func(string)) {
 	}
 }
 
+// byteMarkCases (round 3, seed C13i): byte order marks, NUL / control bytes and the Unicode space characters at the very start of the
+// input, between two tokens and at the end — a lexer that quietly drops a mark, or treats a format character as white space, leaves
+// bytes that belong to no token
+func byteMarkCases(emit func(string)) {
+	marks := []string{"\xef\xbb\xbf", "\xfe\xff", "\xff\xfe", "\x00", "\x1a", "\x0b", "\x0c", "\x85", "\r", "\r\n", "\xc2\xa0", "\xc2\x85",
+		"\xe2\x80\x8b", "\xe2\x80\xa8", "\xe2\x80\xa9", "\xe2\x81\xa0", "\xe3\x80\x80", "\xe1\x9a\x80", "\xef\xbb\xbf\xef\xbb\xbf", "\xef\xbb", "\xef"}
+	bases := [][2]string{{"", ""}, {"SELECT", "1"}, {"a", "b"}, {"--c\n", "x"}, {"/*c*/", "x"}, {"'s'", ","}, {"1", ".5"}, {"a.", "b"}}
+	for _, m := range marks {
+		for _, b := range bases {
+			emit(m + b[0] + " " + b[1])
+			emit(b[0] + m + b[1])
+			emit(b[0] + " " + m + " " + b[1])
+			emit(b[0] + " " + b[1] + m)
+		}
+	}
+}
+
 func specInputs(tier string, r *rng, each func(string)) {
 	n24, n12, nrand := 3, 4, 8000
 	if tier == "thorough" {
@@ -75,6 +92,7 @@ func specInputs(tier string, r *rng, each func(string)) {
 	focusedStrings(tier, func(b []byte) { each(string(b)) })
 	literalCases(each)
 	keywordCases(each)
+	byteMarkCases(each)
 	for _, s := range corpusStrings() {
 		each(s)
 	}
